@@ -558,6 +558,45 @@ def run(ctx):
                    file=ucap.module.rel, node=n, detail={"capability_ids": {m: cap_vals.get(m) for m in sorted(srcs)}, "property_id": pid_vals.get(idn)},
                    fail=f"PropertyId.{idn} (0x{pid_vals.get(idn) or 0:04X}) is marked supported from capability record(s) {sorted(srcs)} "
                         f"({', '.join('0x%04X' % (cap_vals.get(m) or 0) for m in sorted(srcs))}): the client queries and writes an id the device did not advertise")
+    # only apply (what it calls) takes ids out of the pending set: anything else that clears it (a refresh, a capability update, a response
+    # handler) makes the next apply send nothing for a setting the user changed - "transmitted by the next apply after they change" fails
+    def self_calls(f_):
+        out_ = set()
+        for n_ in ast.walk(f_.node):
+            if isinstance(n_, ast.Call) and isinstance(n_.func, ast.Attribute) and isinstance(n_.func.value, ast.Name) and f_.params and n_.func.value.id == f_.params[0]:
+                m_ = prog.lookup_method(ac, n_.func.attr)
+                if m_ is not None:
+                    out_.add(m_.qual)
+        return out_
+    applyf = ctx.fn(f"{AC}.apply")
+    allowed_, todo_ = {applyf.qual}, [applyf]
+    while todo_:
+        f_ = todo_.pop()
+        for q_ in self_calls(f_):
+            if q_ not in allowed_ and q_ in prog.funcs:
+                allowed_.add(q_)
+                todo_.append(prog.funcs[q_])
+    REMOVERS = {"clear", "discard", "remove", "pop", "difference_update", "intersection_update", "symmetric_difference_update"}
+    takers = []
+    for k_ in [ac] + [c_ for c_ in prog.subclasses(ac) if c_ is not ac]:
+        for m_ in list(k_.methods.values()) + list(k_.props_set.values()):
+            if m_.qual in allowed_ or m_.name == "__init__" or not m_.params:
+                continue
+            for n_ in ast.walk(m_.node):
+                if isinstance(n_, ast.Call) and isinstance(n_.func, ast.Attribute) and n_.func.attr in REMOVERS and is_self_attr(n_.func.value, "_updated_properties", (m_.params[0],)):
+                    takers.append((m_, n_))
+                if isinstance(n_, (ast.Assign, ast.AugAssign, ast.AnnAssign)):
+                    for t_ in (n_.targets if isinstance(n_, ast.Assign) else [n_.target]):
+                        if is_self_attr(t_, "_updated_properties", (m_.params[0],)) and not (isinstance(n_, ast.AugAssign) and isinstance(n_.op, ast.BitOr)):
+                            takers.append((m_, n_))
+    ctx.count("pending_set_removers", len(takers))
+    ctx.ob("C16.b", f"{AC}.apply", not takers, "only apply (and what it calls) takes ids out of the set of changed properties", func=takers[0][0].qual if takers else f"{AC}.apply",
+           file=ac.module.rel, node=takers[0][1] if takers else None, construct="removers of _updated_properties",
+           fail=(f"{takers[0][0].qual} empties / rebinds the set of changed properties (`{norm(takers[0][1])[:60]}`): a setting changed before it runs is never "
+                 "transmitted by the next apply") if takers else "")
+    # the values of one properties response are its own (C14.c's rule, on the class this property reads back from)
+    from ..shared import check as shared_check
+    shared_check(ctx, "C16.e", [prog.cls(f"{CMD}.PropertiesResponse")], "the properties response")
     ctx.require_min("advertised_ids", 4)
     # read-back: a property the response carries - whatever its value, also False / 0 / OFF - replaces the backing attribute; one it does
     # not carry leaves it alone (the gate is `get_property(id) is not None`, not the value's truth)
